@@ -9,7 +9,10 @@ import (
 	"fmt"
 	"io"
 	"os"
+	"os/exec"
 	"reflect"
+	"runtime/debug"
+	"strings"
 	"time"
 
 	"github.com/vimeo/dials"
@@ -231,5 +234,38 @@ func (w *c16Worker) regressions() {
 				Case: cs, Expected: rc.want, Observed: cl})
 		}
 		w.caseDone("regression "+rc.what+rc.entry, true, cs)
+	}
+}
+
+// ---------- probe for the listed finding P17 (runs alone in a child process: the overflow is fatal) ----------
+
+type c16P17Node struct {
+	Name string
+	Kids []c16P17Node
+}
+
+type c16P17Cfg struct {
+	Root c16P17Node
+}
+
+func c16ProbeP17(args []string) {
+	debug.SetMaxStack(64 << 20)
+	_, err := dials.Config(context.Background(), &c16P17Cfg{}, &static.StringSource{Data: `{"Root":{"Name":"x","Kids":[{"Name":"y"}]}}`, Decoder: &jsondec.Decoder{}})
+	fmt.Println("PROBE-SURVIVED", err)
+}
+
+func init() { execOneHandlers["c16probe"] = c16ProbeP17 }
+
+// c16RunProbes: each listed finding that can only be shown by a process that dies
+func c16RunProbes(c *Ctx, self string) {
+	if !isKnown("C16", "P17-self-containing-slice-type") {
+		return
+	}
+	cmd := exec.Command(self, "exec-one", "c16probe", "P17")
+	cmd.Env = append(os.Environ(), "GOMEMLIMIT=2GiB")
+	outb, _ := cmd.CombinedOutput()
+	if !strings.Contains(string(outb), "PROBE-SURVIVED") {
+		c.Res.Add(Finding{Kind: "known", KnownID: "P17-self-containing-slice-type", What: "a config type that contains itself through a slice (type Node struct{ Kids []Node }) makes the Transformer recurse on the TYPE without end: fatal stack overflow in a child process (JSON decoder; every source with a recursing mangler)",
+			Case: map[string]any{"probe": "struct{ Root Node }, Node = struct{ Name string; Kids []Node }, document {\"Root\":{\"Name\":\"x\",\"Kids\":[{\"Name\":\"y\"}]}}"}})
 	}
 }
